@@ -239,6 +239,9 @@ func (c *Connection) doConnect(ctx context.Context, setRetry func(time.Duration)
 		if errors.Is(err, ctx.Err()) {
 			return false, concrete.Err
 		}
+		if isCancellationCause(ctx, err) {
+			return false, ctx.Err()
+		}
 		return true, &ConnectionError{Req: c.request, Reason: "connection to server failed", Err: concrete.Err}
 	}
 	defer res.Body.Close()
@@ -253,8 +256,18 @@ func (c *Connection) doConnect(ctx context.Context, setRetry func(time.Duration)
 	if errors.Is(err, ctx.Err()) {
 		return false, err
 	}
+	if isCancellationCause(ctx, err) {
+		return false, ctx.Err()
+	}
 
 	return true, &ConnectionError{Req: c.request, Reason: "connection to server lost", Err: err}
+}
+
+// isCancellationCause reports whether err is the cause the already done context
+// was cancelled with. For contexts created with context.WithCancelCause and the like,
+// net/http reports context.Cause(ctx) instead of ctx.Err() when the request is aborted.
+func isCancellationCause(ctx context.Context, err error) bool {
+	return ctx.Err() != nil && errors.Is(err, context.Cause(ctx))
 }
 
 // ErrNoGetBody is a sentinel error returned when the connection cannot be reattempted
